@@ -15,7 +15,7 @@ ID = 'C11'
 LEVEL = 'exploration'
 RULE = ('Generated budget directories: 1-4 transaction sources with independent format/delimiter/has_header/decimal_separator/sign/'
         'negate_amount/description-template settings (several sources often share the SAME format string while differing in per-source '
-        'settings) + 0-2 supplemental sources; rules as .rules (transforms, variables, cross-source conditions), legacy CSV or none; '
+        'settings) + 0-2 supplemental sources (with their own delimiter / decimal-separator settings); rules as .rules (transforms, variables, cross-source conditions), legacy CSV or none; '
         'rule_mode first_match/most_specific/absent/invalid; views present/absent/corrupt; documented currency formats; a source file '
         'missing, binary garbage, a directory, or readable rows followed (beyond the first 8 KiB) by undecodable bytes. `tally up` is run in-process (JSON -v, HTML report decoded with html.parser+json, '
         'non-quiet summary) and on a fresh-subprocess sample. Oracle (glue validation): transactions, per-merchant counts/totals, the '
@@ -28,7 +28,7 @@ RULE = ('Generated budget directories: 1-4 transaction sources with independent 
         'and one of {transform, most_specific, supplemental query, decimal comma, non-comma delimiter, views}.')
 ASSUMPTIONS = ['component correctness (parse/classify/total/views) is decided by C01-C10; C11 decides that every setting reaches its component',
                'the in-process driver is re-confirmed on a fresh-subprocess sample per run']
-REQUIRED_CLASSES = ['repeated_charge_distinct_columns', 'duplicate_source_name', 'same_format_different_settings', 'source_missing_or_unreadable', 'source_fails_part_way', 'supplemental', 'views', 'csv_rules', 'most_specific', 'decimal_comma', 'subprocess_sample']
+REQUIRED_CLASSES = ['repeated_charge_distinct_columns', 'duplicate_source_name', 'same_format_different_settings', 'source_missing_or_unreadable', 'source_fails_part_way', 'supplemental', 'supplemental_own_settings', 'views', 'csv_rules', 'most_specific', 'decimal_comma', 'subprocess_sample']
 
 case_st = st.fixed_dictionaries({'b': B.budget(), 'drop': st.integers(0, 3), 'sub': st.integers(0, 39)})
 
@@ -178,6 +178,8 @@ def check(case, stats: Stats):
                 classes.add('repeated_charge_distinct_columns')
         if b['supplemental']:
             classes.add('supplemental')
+            if (b.get('supp_style') or {}).get('delim', ',') != ',' or (b.get('supp_style') or {}).get('dec', '.') != '.':
+                classes.add('supplemental_own_settings')
         if b['views'] not in (None, 'corrupt'):
             classes.add('views')
         if b['rules_kind'] == 'csv':
